@@ -1686,16 +1686,16 @@ def run(tier, seed):
         vlib.log(f"[C19] {name}: {'ok' if res else 'VIOLATION'} in {timing[name]} s")
         return res
 
-    timed("path-checks", lambda: section_components(chk, r, binary, 1500 if th else 200))
+    timed("path-checks", lambda: section_components(chk, r, binary, 4000 if th else 200))
     timed("include-parse", lambda: section_include(chk, r, binary, 300 if th else 60))
     timed("path-mapper", lambda: section_mapper(chk, r, binary, 200 if th else 40))
     forced = [(c["gen_seed"], c.get("broken_links", False), c.get("includes")) for c in cp.get("archive", [])]
-    timed("archive", lambda: section_archive(chk, r, binary, (300 if th else 90) + len(forced), distinct, forced))
-    timed("hostile", lambda: section_hostile(chk, r, binary, (500 if th else 160) + len(cp.get("hostile", [])), fixed,
+    timed("archive", lambda: section_archive(chk, r, binary, (1000 if th else 90) + len(forced), distinct, forced))
+    timed("hostile", lambda: section_hostile(chk, r, binary, (2000 if th else 160) + len(cp.get("hostile", [])), fixed,
                                              rig.nextest, 40 if th else 5, cp.get("hostile", [])))
-    timed("crash", lambda: section_crash(chk, r, binary, 200 if th else 40, 40 if th else 10, rig.nextest,
-                                         20 if th else 4))
-    timed("cli-roundtrip", lambda: section_cli(chk, r, binary, rig, 10 if th else 3, distinct))
+    timed("crash", lambda: section_crash(chk, r, binary, 500 if th else 40, 100 if th else 10, rig.nextest,
+                                         30 if th else 4))
+    timed("cli-roundtrip", lambda: section_cli(chk, r, binary, rig, 20 if th else 3, distinct))
     shutil.rmtree(WORK, ignore_errors=True)
     chk.assumptions = ASSUMPTIONS
     evals = sum(v for k, v in chk.counts.items() if k.endswith("_cases"))
